@@ -29,7 +29,7 @@ PROPS = {
     ),
     'C07': dict(
         level='exploration',
-        level_text='Seeded histories over 45 entry points of the rational interface (incl. all GMP mpq_t overloads) and the real interface in '
+        level_text='Seeded histories over 47 entry points (incl. clearLPReal/clearLPRational followed by a rebuild through mixed real/rational add calls) of the rational interface (incl. all GMP mpq_t overloads) and the real interface in '
                    'automatic sync mode, with excursions into manual mode (syncLPReal / syncLPRational) and floating-point solves in between: '
                    'after every call the rational LP must equal the exact mirror (rational arguments verbatim, doubles converted exactly), the '
                    'real LP must be its coefficient-wise adjacent-double image, dimensions/sense agree, and the private per-row/column '
@@ -39,7 +39,7 @@ PROPS = {
                    'exercised on the last index because the renumbering of other removals is undocumented',
         technique='runtime monitoring: sequential exact mirror of both LPs checked after each API call of seeded histories, under ASan+UBSan',
         stages=two_flavour('h_exact', 400, 1600, 6000, 20000),
-        minima=lambda t: {'c07.sync_checks': 8000, 'c07.op.changeElementRational(mpq)': 20, 'c07.op.addRowRational(mpq)': 50,
+        minima=lambda t: {'c07.sync_checks': 8000, 'c07.op.clearLPReal': 60, 'c07.op.clearLPRational': 60, 'c07.op.changeElementRational(mpq)': 20, 'c07.op.addRowRational(mpq)': 50,
                           'c07.manual_syncLPReal': 50, 'c07.manual_syncLPRational': 50, 'c07.onlyreal_copy_checked': 50},
         eval_counter='cases', distinct_set='nontrivial',
         rule='case k -> history seed; 50 (quick) / 80 (thorough) steps drawn from 45 operations; every 4th case adds a real-only exact solve; '
